@@ -4,7 +4,7 @@ from harness.oracles import all as ALL
 
 ID = 'C08'
 UNITS = ['event_metrics', 'transcription_scores', 'seg_cluster_q', 'index_labels', 'multipitch_metrics', 'pattern_scores', 'tempo_detection', 'alignment_scores', 'beat_q', 'beat_ig', 'seg_entropy_num', 'chord_evaluate', 'hier_measures', 'note_matching', 'match_events']
-TRANSLATORS = ['patternfuncs']
+TRANSLATORS = ['patternfuncs', 'corefuncs']
 NOT_COVERED = 'Rational shifts on the exact lattice (float rounding of shifted times is outside the model); MI / AMI under relabelling are Reals theorems tied numerically inside Coq (seg_entropy_num).'
 ASSUMPTIONS = ['exact-arithmetic lattices for the correspondence (DESIGN.md section 2.1); NumPy/SciPy primitives as modelled per module']
 
